@@ -135,7 +135,7 @@ class TextualDataType(BaseDataType):
                 (encoding_chars['REPETITION'], '{esc}R{esc}'.format(esc=escape_char)),)
 
     def _get_escape_char_regex(self, escape_char):
-        return r'(?<!%s[HNFSTRE])%s(?![HNFSTRE]%s)' % tuple(3 * [re.escape(escape_char)])
+        return r'(%s[HNFSTRE]%s)|%s' % tuple(3 * [re.escape(escape_char)])
 
     def _escape_value(self, value, encoding_chars=None):
         escape_char = encoding_chars['ESCAPE']
@@ -176,9 +176,11 @@ class TextualDataType(BaseDataType):
         # otherwise it would become /E/H/E/ which is not the result wanted.
         # Thus the regex search for escape chars not followed and not preceeded by one of the litteral
         # composing an escape sequence. We use lambda because otherwise the backslash sequence in the string
-        # is processed (look for re.sub in python doc) and we don't want this
+        # is processed (look for re.sub in python doc) and we don't want this.
+        # The text is scanned left to right: a complete escape sequence is kept as it is (group 1), any other
+        # escape char is escaped
         value = re.sub(self._get_escape_char_regex(escape_char),
-                       lambda x: '{esc}E{esc}'.format(esc=escape_char), value)
+                       lambda x: x.group(1) or '{esc}E{esc}'.format(esc=escape_char), value)
 
         return value
 
